@@ -24,8 +24,8 @@ def run(ctx):
         "backend I/O faults (topic.Empty / channel.Empty / PersistMetadata errors, body read errors) are outside",
         "equivalence theorems: both servers read the same options, auth disabled, 0 <= max-req-timeout < 2^63-1 ns, "
         "max-msg-size >= 0, body shorter than 2^31 bytes, request complete (declared length = body length, or chunked)",
-        "mpub_binary_equiv_tcp: a chunked body is within max-body-size (otherwise known finding F10: "
-        "mpub_body_bounded is false, mpub_body_bounded_partial holds for declared lengths)",
+        "mpub_binary_equiv_tcp: a chunked body is within max-body-size (beyond it HTTP reads only the first "
+        "max-body-size bytes: mpub_body_bounded, F10 repaired by fixes/F10_mpub_body_limit.patch)",
         "pprof/debug routes, PUT /config/nsqlookupd_tcp_addresses and the content of /stats, /info, /config "
         "answers are not modelled (status `external` / message `*`)",
     ]
@@ -68,7 +68,7 @@ def run(ctx):
                 os.remove(os.path.join(corpus, fn))
             with open(os.path.join(corpus, "00_replay.ops"), "w") as f:
                 f.write(open(ctx.replay_in).read())
-        N = 0 if ctx.replay_in else ctx.budget(2500, 25000)
+        N = 0 if ctx.replay_in else ctx.budget(2000, 25000)
         rc, out = ctx.run_cmd([binp, "-test.run", "^TestVerifE3HTTP$", "-test.count=1", "-test.timeout=3000s"],
                               timeout=3200, env={"VERIF_SEED": ctx.seed, "VERIF_N": N, "VERIF_OUT": ctx.work,
                                                  "VERIF_REPO": REPO, "VERIF_CORPUS": corpus})
